@@ -5,10 +5,13 @@
   `v` is preceded by `minCycle + 1` consecutive samples that all read `v` (so, with 20 ms sampling
   and minCycle = 5, the level was `v` at six instants spanning 100 ms: a shorter pulse cannot be
   notified), and a level that stays constant is notified after exactly `minCycle + 1` samples, once.
-  Button modes (mono/bistable, action triggers, hold, multi-click) are exercised on the
-  implementation (tools/props/c11.py).
+  Second half (C11.A ..): the action-trigger handling behind the debounce (Model/InputAt): the highest
+  detectable click count, a burst of N quick clicks resolved exactly once as min(N, highest enabled
+  multiplicity), the local relay action only for a single click, a long press = one hold trigger.
+  Plain-mode toggling of mono/bistable inputs is exercised on the implementation (tools/props/c11.py).
 -/
 import SuplaVerif.Model.Debounce
+import SuplaVerif.Lemmas.InputAt
 import SuplaVerif.Gen.Consts
 
 namespace SuplaVerif.C11
@@ -141,5 +144,204 @@ theorem c11_consts : Gen.inputMinCycle = 5 ∧ Gen.inputCycleMs = 20 ∧
 /-- non-vacuity: a 4-sample pulse (80 ms) inside a low level is not notified as high -/
 example : (Deb.run 5 { step := 1, value := false } 0
     [true, true, true, true, false, false, false, false, false, false]).2 = [(9, false)] := by decide
+
+/-! ### action-trigger mode: multi-click, hold, local action -/
+
+/-- **C11.A (highest enabled multiplicity)** `max_clicks` as computed by set_active_triggers covers every enabled
+    press / toggle multiplicity ... -/
+theorem c11_max_clicks_covers (a k : Nat) (hk : 1 ≤ k ∧ k ≤ 5)
+    (h : hasBit a (capPress k) = true ∨ hasBit a (capToggle k) = true) : k ≤ maxFromActions a := by
+  have hk' : k = 1 ∨ k = 2 ∨ k = 3 ∨ k = 4 ∨ k = 5 := by omega
+  unfold maxFromActions
+  rcases hk' with rfl | rfl | rfl | rfl | rfl <;> repeat' split <;> first | omega | simp_all
+
+/-- ... and is itself enabled (0 when no press / toggle trigger is active) -/
+theorem c11_max_clicks_enabled (a : Nat) (h : 0 < maxFromActions a) :
+    hasBit a (capPress (maxFromActions a)) = true ∨ hasBit a (capToggle (maxFromActions a)) = true := by
+  unfold maxFromActions at h ⊢
+  repeat' split <;> simp_all
+
+theorem emit_sub (c : AtCfg) (s : AtSt) (a : Nat) (o : AtOut) (h : o ∈ emit c s a) :
+    o = .trig a ∧ Nat.land a s.active ≠ 0 ∧ c.channel ≠ 255 := by
+  unfold emit at h
+  split at h
+  · cases h
+  · rename_i hc
+    simp only [List.mem_singleton] at h
+    exact ⟨h, fun hh => hc (Or.inr (Or.inl hh)), fun hh => hc (Or.inr (Or.inr hh))⟩
+
+/-- **C11.B (what a resolution can be)** the resolution of a click count is at most one action; a local relay
+    action only for exactly one click on a button whose relay is still connected; a trigger only if it is in the
+    active set, and then it is the trigger of exactly that click count -/
+theorem c11_resolution (c : AtCfg) (s : AtSt) (a : Nat) :
+    (sendAt c s a).length ≤ 1 ∧
+    (∀ o ∈ sendAt c s a, (o = .localAct ∨ o = .localInact) → a = 0 ∧ s.click = 1 ∧ s.relayConn = true) ∧
+    (∀ x, AtOut.trig x ∈ sendAt c s a → Nat.land x s.active ≠ 0 ∧ c.channel ≠ 255 ∧
+      (a = 0 → x = countAction c s.click ∧ s.click ≠ -1)) ∧
+    AtOut.cfgMode ∉ sendAt c s a := by
+  unfold sendAt
+  by_cases ha : a = 0
+  · rw [if_pos ha]
+    by_cases h1 : s.click = -1
+    · rw [if_pos h1]; simp
+    · rw [if_neg h1]
+      by_cases h2 : s.click = 1 ∧ s.relayConn = true
+      · rw [if_pos h2]
+        have hL : ∀ o ∈ (if c.isRs = true then (if s.last = true ∨ c.typ = 2 then [AtOut.localAct] else [AtOut.localInact])
+            else [AtOut.localAct]), o = .localAct ∨ o = .localInact := by
+          by_cases g1 : c.isRs = true <;> by_cases g2 : (s.last = true ∨ c.typ = 2) <;> simp [g1, g2]
+        have hlen : (if c.isRs = true then (if s.last = true ∨ c.typ = 2 then [AtOut.localAct] else [AtOut.localInact])
+            else [AtOut.localAct]).length ≤ 1 := by
+          by_cases g1 : c.isRs = true <;> by_cases g2 : (s.last = true ∨ c.typ = 2) <;> simp [g1, g2]
+        refine ⟨hlen, fun _ _ _ => ⟨ha, h2.1, h2.2⟩, ?_, ?_⟩
+        · intro x hx; rcases hL _ hx with h' | h' <;> cases h'
+        · intro hx; rcases hL _ hx with h' | h' <;> cases h'
+      · rw [if_neg h2]
+        refine ⟨?_, ?_, ?_, ?_⟩
+        · unfold emit; split <;> simp
+        · intro o ho hl
+          have := (emit_sub c s _ o ho).1
+          rcases hl with hl | hl <;> rw [hl] at this <;> cases this
+        · intro x hx
+          obtain ⟨e1, e2, e3⟩ := emit_sub c s _ _ hx
+          injection e1 with e1
+          exact ⟨by rw [e1]; exact e2, e3, fun _ => ⟨e1, h1⟩⟩
+        · intro hx; have := (emit_sub c s _ _ hx).1; cases this
+  · rw [if_neg ha]
+    refine ⟨?_, ?_, ?_, ?_⟩
+    · unfold emit; split <;> simp
+    · intro o ho hl
+      have := (emit_sub c s _ o ho).1
+      rcases hl with hl | hl <;> rw [hl] at this <;> cases this
+    · intro x hx
+      obtain ⟨e1, e2, e3⟩ := emit_sub c s _ _ hx
+      injection e1 with e1
+      exact ⟨by rw [e1]; exact e2, e3, fun h0 => absurd h0 ha⟩
+    · intro hx; have := (emit_sub c s _ _ hx).1; cases this
+
+/-- **C11.C (a burst of quick clicks is resolved exactly once, as min(N, highest multiplicity))** a plain monostable
+    button in action-trigger mode, idle, with a highest detectable count M ≥ 2: N ≥ 1 quick clicks (each released
+    before the hold time, each followed by the next inside the multi-click time, timer callbacks at any instants
+    in between) and then quiet for the multi-click time produce exactly the resolution of min(N, M) clicks -
+    one trigger, or the local relay action when that count is one and the relay is connected, or nothing when that
+    trigger is not enabled - and leave the button idle again. Clicks beyond M are swallowed. -/
+theorem c11_burst_resolved_once (c : AtCfg) (s : AtSt) (cs : List (List Nat × List Nat)) (δf : Nat)
+    (h : PlainMono c s) (hidle : s.last = false ∧ s.click = 0) (hm : 2 ≤ s.maxClicks)
+    (hq : ∀ p ∈ cs, Quick c p.1 p.2) (hne : cs ≠ []) (hδ : c.multiUs ≤ δf) :
+    (runAt c s (burst cs ++ [.wait δf])).2 =
+        sendAt c { s with click := (min cs.length s.maxClicks : Nat), last := false } 0 ∧
+    (runAt c s (burst cs ++ [.wait δf])).1.click = 0 ∧ (runAt c s (burst cs ++ [.wait δf])).1.armed = false ∧
+    (runAt c s (burst cs ++ [.wait δf])).1.last = false := by
+  obtain ⟨b1, b2, b3, b4, b5⟩ := burst_run c cs s h hq hidle.1 hm (Or.inr ⟨by rw [hidle.2]; omega, by rw [hidle.2]; omega⟩)
+  have harm := b3 hne
+  generalize hsb : (runAt c s (burst cs)).1 = sb at b1 b2 b4 harm
+  have hpm : PlainMono c sb := h.of_same b4
+  obtain ⟨q1, q2⟩ := wait_released_quiet c sb hpm b1 harm δf hδ
+  rw [runAt_append, hsb]
+  simp only [runAt, stepAt, List.append_nil, q1, q2, b5]
+  refine ⟨?_, trivial, trivial, b1⟩
+  rw [hidle.2] at b2 ⊢
+  simp only [countAfter] at b2
+  by_cases hr : (0 : Int) + (cs.length : Int) ≥ (s.maxClicks : Int)
+  · -- resolved by the M-th click; the quiet period finds nothing left
+    rw [if_neg (by omega), if_pos hr] at b2
+    have hmin : min cs.length s.maxClicks = s.maxClicks := by omega
+    rw [if_pos ⟨by omega, hr⟩, hmin]
+    have : sendAt c sb 0 = [] := by unfold sendAt; simp [b2]
+    rw [this, List.append_nil]
+  · rw [if_neg (by omega), if_neg hr] at b2
+    have hmin : min cs.length s.maxClicks = cs.length := by omega
+    rw [if_neg (fun hh => hr hh.2), hmin, List.nil_append]
+    exact sendAt_congr c _ _ 0 (by simp [b2]) (by simp [b4.2.1]) (by simp [b1]) (by simp [b4.1])
+
+/-- **C11.D (nothing but that one resolution)** in particular the burst produces at most one action at all, a local relay
+    action only when min(N, M) = 1, i.e. never for a multi-click when two or more clicks are detectable -/
+theorem c11_burst_at_most_one (c : AtCfg) (s : AtSt) (cs : List (List Nat × List Nat)) (δf : Nat)
+    (h : PlainMono c s) (hidle : s.last = false ∧ s.click = 0) (hm : 2 ≤ s.maxClicks)
+    (hq : ∀ p ∈ cs, Quick c p.1 p.2) (hne : cs ≠ []) (hδ : c.multiUs ≤ δf) :
+    (runAt c s (burst cs ++ [.wait δf])).2.length ≤ 1 ∧
+    (∀ o ∈ (runAt c s (burst cs ++ [.wait δf])).2, (o = .localAct ∨ o = .localInact) → cs.length = 1) := by
+  rw [(c11_burst_resolved_once c s cs δf h hidle hm hq hne hδ).1]
+  obtain ⟨r1, r2, _, _⟩ := c11_resolution c { s with click := (min cs.length s.maxClicks : Nat), last := false } 0
+  refine ⟨r1, fun o ho hl => ?_⟩
+  have := (r2 o ho hl).2.1
+  simp only at this
+  have hlen : 0 < cs.length := List.length_pos_iff.mpr hne
+  omega
+
+/-- **C11.E (a long press is one hold trigger)** from idle: press, callbacks before the hold time, the first callback
+    at or after it: exactly the hold trigger (if it is enabled), the click is consumed (counter 0, timer stopped) ... -/
+theorem c11_hold_once (c : AtCfg) (s : AtSt) (wp : List Nat) (δh : Nat) (h : PlainMono c s)
+    (hidle : s.last = false ∧ s.click = 0) (hwp : ∀ δ ∈ wp, δ < c.holdUs) (hδ : c.holdUs ≤ δh) :
+    (runAt c s (.press :: (wp.map .wait ++ [.wait δh]))).2 = emit c s capHold ∧
+    (runAt c s (.press :: (wp.map .wait ++ [.wait δh]))).1.click = 0 ∧
+    (runAt c s (.press :: (wp.map .wait ++ [.wait δh]))).1.armed = false ∧
+    (runAt c s (.press :: (wp.map .wait ++ [.wait δh]))).1.last = true ∧
+    SameCfg s (runAt c s (.press :: (wp.map .wait ++ [.wait δh]))).1 := by
+  obtain ⟨p1, p2, p3, p4, p5⟩ := press_step c s h 0
+  generalize hsp : (change c s true 0).1 = sp at p2 p3 p4 p5
+  have hpm : PlainMono c sp := h.of_same p5
+  have hw : runAt c sp (wp.map .wait) = (sp, []) :=
+    run_noop_waits c sp wp (fun δ hδ' => wait_pressed c sp hpm p2 δ (hwp δ hδ'))
+  have hc : sp.click = 1 := by rw [p4, hidle.2]; simp
+  simp only [runAt, stepAt, hsp, p1, List.nil_append]
+  rw [runAt_append, hw]
+  simp only [runAt, stepAt, List.nil_append, List.append_nil]
+  have ht : tickD c sp δh = ({ sp with click := 0, armed := false }, emit c sp capHold) := by
+    unfold tickD
+    simp only [p3, Bool.not_true, Bool.false_eq_true, if_false, hpm.typ, p2, hpm.noHold, hc]
+    simp [hδ, sendAt, capHold, hc, p2]
+  rw [ht]
+  refine ⟨?_, rfl, rfl, p2, ⟨p5.1, p5.2.1, p5.2.2⟩⟩
+  unfold emit
+  rw [p5.1]
+
+/-- ... and the release and whatever callbacks follow produce nothing more -/
+theorem c11_after_hold_silent (c : AtCfg) (s : AtSt) (ws : List Nat) (h : PlainMono c s)
+    (hs : s.last = true ∧ s.click = 0) :
+    (runAt c s (.release :: ws.map .wait)).2 = [] := by
+  obtain ⟨r1, r2, r3, r4, r5⟩ := release_step c s h 0
+  generalize hsr : (change c s false 0).1 = sr at r2 r3 r4 r5
+  have hrm : PlainMono c sr := h.of_same r5
+  simp only [runAt, stepAt, hsr, r1, List.nil_append]
+  have key : ∀ (ws : List Nat) (t : AtSt), PlainMono c t → t.last = false → t.click = 0 →
+      (runAt c t (ws.map .wait)).2 = [] := by
+    intro ws
+    induction ws with
+    | nil => intro t _ _ _; rfl
+    | cons w ws ih =>
+      intro t ht hl hc
+      have hz : sendAt c t 0 = [] := by
+        unfold sendAt emit countAction
+        simp [hc]
+      have hstep : (tickD c t w).2 = [] ∧ (tickD c t w).1.last = false ∧ (tickD c t w).1.click = 0 ∧
+          SameCfg t (tickD c t w).1 := by
+        unfold tickD
+        by_cases ha : t.armed = true
+        · simp only [ha, Bool.not_true, Bool.false_eq_true, if_false, ht.typ, hl]
+          simp only [Bool.false_eq_true, and_false, false_and, if_false, Bool.not_false, true_or, if_true, hz, hc]
+          by_cases h1 : w ≥ c.multiUs
+          · simp [h1, hl, SameCfg]
+          · by_cases h2 : t.maxClicks = 0
+            · simp [h1, h2, hl, SameCfg]
+            · have h3 : ¬ (0 : Int) ≥ (t.maxClicks : Int) := by omega
+              simp [h1, h2, h3, hl, hc, SameCfg]
+        · simp [ha, hl, hc, SameCfg]
+      simp only [List.map_cons, runAt, stepAt, hstep.1, List.nil_append]
+      exact ih _ (ht.of_same hstep.2.2.2) hstep.2.1 hstep.2.2.1
+  exact key ws sr hrm r2 (by rw [r4]; exact hs.2)
+
+/-- non-vacuity: PRESS_x2 and PRESS_x3 active (highest count 3), relay behind the button: a double click sends
+    PRESS_x2, five clicks send PRESS_x3, a single click switches the relay, a long press sends nothing (hold is not
+    active) - the premises of the theorems above hold for this state -/
+example :
+    let c : AtCfg := { typ := 2, cap := 64512, channel := 5, hasRelay := true, isRs := false, cfgHold := false,
+                       cfgToggle := false, holdUs := 700000, multiUs := 300000, cfgPressUs := 5000000 }
+    let s := setActive c {} (capPress 2 + capPress 3)
+    let q : List Nat × List Nat := ([20000, 40000], [20000, 40000, 60000])
+    s.maxClicks = 3 ∧ s.relayConn = true ∧
+    (runAt c s (burst [q, q] ++ [.wait 300000])).2 = [.trig (capPress 2)] ∧
+    (runAt c s (burst [q, q, q, q, q] ++ [.wait 300000])).2 = [.trig (capPress 3)] ∧
+    (runAt c s (burst [q] ++ [.wait 300000])).2 = [.localAct] := by decide
 
 end SuplaVerif.C11
